@@ -32,9 +32,15 @@ def blockArr (x : Pos → Int) (chunks : List (List Int)) (bid : List Nat) : Arr
   let idx := blockIndex chunks bid
   ⟨idx.map (fun p => p.2 - p.1), fun j => x (addPos (idx.map (·.1)) j)⟩
 
+/-- `tuple((c if i == axis else (sum(c),)) for i, c in enumerate(x.chunks))`, `i` counted from `s`
+(the same list as `npyStackChunks`, Model/SourceIO.lean, written as the recursion `enumerate` is) -/
+def collapseFrom (s : Nat) (axis : Int) : List (List Int) → List (List Int)
+  | [] => []
+  | c :: cs => (if (s : Int) = axis then c else [isum c]) :: collapseFrom (s + 1) axis cs
+
 /-- the files `0.npy, 1.npy, …` (in this order) and the info record -/
 def toStack (axis : Int) (chunks : List (List Int)) (x : Pos → Int) : List Arr × Info :=
-  let cc := npyStackChunks chunks axis
+  let cc := collapseFrom 0 axis chunks
   ((blockIds cc).map (blockArr x cc), ⟨cc, axis⟩)
 
 /-- Python `l[i]` -/
